@@ -93,6 +93,9 @@ TUpdateFaulted == /\ Ev.ev = "UpdateFaulted" /\ Ev.exc # "None"
 TUpdateAllFaulted == /\ Ev.ev = "UpdateAllFaulted" /\ Ev.exc # "None"
                      /\ UpdateAllFaulted(Ev.ms, Ev.fl, Par, Ev.fc)
                      /\ \A k \in 1..Len(Ev.ms) : Agree(Ev.ms[k])
+\* a duplicate (deepcopy / pickle round trip) holds exactly what its original holds, and the original is untouched
+TClone == /\ Ev.ev = "Clone" /\ Ev.exc = "None"
+          /\ Clone(Ev.m, Ev.m2, Ev.how) /\ Agree(Ev.m) /\ Agree(Ev.m2)
 TVoigtOk == /\ Ev.ev = "Voigt" /\ Ev.exc = "None"
             /\ VoigtOk(Ev.ms, Par) /\ \A k \in 1..Len(Ev.ms) : Agree(Ev.ms[k])
 TVoigtRejected == /\ Ev.ev = "Voigt" /\ Ev.exc = "ValueError"
@@ -104,10 +107,10 @@ TLoadBadName == /\ Ev.ev = "LoadBadName" /\ Ev.exc = "ValueError"
 Bound == \/ TCreate \/ TUpdateOk \/ TUpdateRejected \/ TUpdateAbsent
          \/ TUpdateAllOk \/ TUpdateAllPartial
          \/ TSavePostfix \/ TSaveWhole \/ TSaveCorrupt \/ TLoad \/ TFromFile \/ TLoadBadName
-         \/ TBadArgs \/ TVoigtOk \/ TVoigtRejected \/ TUpdateFaulted \/ TUpdateAllFaulted
+         \/ TBadArgs \/ TVoigtOk \/ TVoigtRejected \/ TUpdateFaulted \/ TUpdateAllFaulted \/ TClone
 
 \* ---------------------------------------------------------------- diagnosis (names only)
-Touched == IF Has(Ev, "ms") THEN {Ev.ms[k] : k \in 1..Len(Ev.ms)} ELSE {Ev.m}
+Touched == IF Has(Ev, "ms") THEN {Ev.ms[k] : k \in 1..Len(Ev.ms)} ELSE IF Ev.ev = "Clone" THEN {Ev.m, Ev.m2} ELSE {Ev.m}
 Diagnose ==
     IF Ev.ev = "Update" /\ cfg[Ev.m] # NULL THEN
         LET d == Dispatch(cfg[Ev.m], EffRegime(Ev.m, Ev.cb), Par)
@@ -129,6 +132,7 @@ Diagnose ==
         (IF Ev.exc = "None" THEN "client-fault-swallowed"
          ELSE IF \E m \in Touched : ObsOf(m) # hist[m] THEN "failed-update-touched-history"
          ELSE "client-fault-changed-the-mineral")
+    ELSE IF Ev.ev = "Clone" THEN "copy-differs-from-its-original"
     ELSE IF Ev.ev = "UpdateBadArgs" THEN (IF Ev.exc # "ValueError" THEN "bad-arguments-not-refused" ELSE "bad-arguments-touched-history")
     ELSE IF Ev.ev = "Voigt" /\ AllLive(Ev.ms) THEN
         (IF Ev.exc = "None" /\ ~VoigtAccepts(Ev.ms, Par) THEN "voigt-accepted-where-spec-rejects"
@@ -156,7 +160,8 @@ Judge(m) ==
         e6 == strain'[m]
         \* the validity of the INITIAL snapshot is promised for default-constructed minerals; a texture supplied by the
         \* client (field default = FALSE) is the client's responsibility and is judged from its first update on
-        fresh == IF Ev.ev = "Create" THEN (IF Has(Ev, "default") THEN Ev.default ELSE TRUE) ELSE Grew(m) IN
+        fresh == IF Ev.ev = "Clone" THEN FALSE          \* a copy adds no snapshot of its own
+                 ELSE IF Ev.ev = "Create" THEN (IF Has(Ev, "default") THEN Ev.default ELSE TRUE) ELSE Grew(m) IN
     IF ~fresh THEN <<>>
     ELSE IF ~v.shapeOK THEN <<"snapshot-shape">>
     ELSE IF ~v.finite THEN <<"snapshot-not-finite">>
@@ -176,7 +181,8 @@ JudgeAll == LET S == {m \in Touched : Has(Ev.obs, m) /\ Has(Obs(m), "v")} IN
                  ELSE LET m2 == CHOOSE m \in S \ {m1} : TRUE IN Judge(m1) \o Judge(m2)
 
 StrainStep == strain' = [m \in Minerals |->
-                 IF m \in Touched /\ Has(Ev.obs, m) /\ Grew(m) THEN strain[m] + Obs(m).dstrain_e6
+                 IF Ev.ev = "Clone" THEN (IF m = Ev.m2 THEN strain[Ev.m] ELSE strain[m])      \* a copy inherits the strain budget
+                 ELSE IF m \in Touched /\ Has(Ev.obs, m) /\ Grew(m) THEN strain[m] + Obs(m).dstrain_e6
                  ELSE IF Ev.ev \in {"Create", "FromFile", "Load"} /\ m = Ev.m THEN 0 ELSE strain[m]]
 
 \* ---------------------------------------------------------------- trace machine
